@@ -531,8 +531,78 @@ def check_availability(fx, R):
         size0 = sp.Symbol('size(this.data_)', integer=True, nonnegative=True)
         W = sp.Symbol('this.windowSize_', integer=True)
         good = len(sts) == 1 and sts[0].ret in (sp.Eq(size0, W), sp.Eq(W, size0))
-        R.check(good, 'S6', '%s::isAvailable' % short_fn(cq), 'isAvailable is not `data_.size() == windowSize_`: %s' % [s.ret for s in sts],
-                'available iff window full', fx.rel(f['loc']), 'E-STATE')
+        flag = sts[0].ret if len(sts) == 1 and isinstance(sts[0].ret, sp.Symbol) and sts[0].ret.name.startswith('this.') else None
+        if good:
+            R.holds('S6', '%s::isAvailable' % short_fn(cq), 'available iff window full', fx.rel(f['loc']), 'E-STATE')
+        elif flag is not None:
+            # availability is a stored flag: after every update() and reset() the flag must say whether the window is full THEN
+            fname = flag.name.split('.', 1)[1]
+            verdict = None
+            for mname in ('update', 'reset'):
+                g = method(fx, cq, mname)
+                if g is None:
+                    continue
+                try:
+                    ps = sym.Reader(fx).run(g)
+                except sym.Unsupported as u:
+                    verdict = ('undecided', '%s not interpretable: %s' % (mname, u))
+                    break
+                for st in ps:
+                    fv = st.fields.get(('this',) + tuple(fname.split('.')))
+                    if fv is None:
+                        fv = next((v_ for k_, v_ in st.fields.items() if k_[:2] == ('this', fname.split('.')[0])), None)
+                    dq = st.fields.get(('this', 'data_'))
+                    size1 = dq.size() if isinstance(dq, sym.Cont) else size0
+                    desc = ' && '.join(('' if c[2] else '!') + '(' + c[0] + ')' for c in st.cond)
+                    if fv is None or (isinstance(fv, sp.Symbol) and fv == flag):
+                        verdict = verdict or ('violated', '%s()%s leaves the flag `%s` untouched although the number of samples in the window changes' % (mname, ' on the path [%s]' % desc if desc else '', fname)) \
+                            if size1 != size0 else verdict
+                        continue
+                    if not isinstance(fv, sp.Basic):
+                        verdict = verdict or ('undecided', 'value stored in %s by %s() not readable' % (fname, mname))
+                        continue
+                    for Wv in (1, 2, 5):
+                        for s0 in range(0, Wv + 1):
+                            env = {size0: s0, W: Wv}
+                            feas = True
+                            for c in st.cond:
+                                if isinstance(c[1], sp.Basic):
+                                    cv_ = c[1].subs(env)
+                                    if cv_ in (sp.true, sp.false) and bool(cv_) != c[2]:
+                                        feas = False
+                            if not feas:
+                                continue
+                            try:
+                                got = fv.subs(env)
+                                want = sp.simplify(size1.subs(env)) == Wv
+                            except Exception:
+                                continue
+                            if got in (sp.true, sp.false, 0, 1) and bool(got) != bool(want) and verdict is None:
+                                verdict = ('violated', 'after %s() on a window of W = %d that held %d sample(s) the window holds %s, so availability is %s, but the stored flag `%s` is %s (it is computed from '
+                                           'the size BEFORE the sample is pushed): isAvailable() is one sample late exactly when the W-th sample arrives' % (
+                                               mname, Wv, s0, sp.simplify(size1.subs(env)), bool(want), fname, bool(got)))
+            if verdict is None:
+                R.holds('S6', '%s::isAvailable' % short_fn(cq), 'returns the stored flag %s, which update() and reset() leave equal to (window full) on every path (W = 1, 2, 5; every fill level)' % fname, fx.rel(f['loc']), 'E-STATE')
+            elif verdict[0] == 'violated':
+                R.violated('S6', '%s::isAvailable:flag' % short_fn(cq), verdict[1], fx.rel(f['loc']), 'E-STATE')
+            else:
+                R.undecided('S6', '%s::isAvailable' % short_fn(cq), verdict[1])
+        elif len(sts) == 1 and isinstance(sts[0].ret, sp.Basic) and sts[0].ret.free_symbols <= {size0, W}:
+            bad = None
+            for Wv in (1, 2, 5):
+                for s0 in range(0, Wv + 1):
+                    v_ = sts[0].ret.subs({size0: s0, W: Wv})
+                    if v_ not in (sp.true, sp.false):
+                        v_ = sp.true if v_ == 1 else sp.false if v_ == 0 else v_
+                    if v_ in (sp.true, sp.false) and bool(v_) != (s0 == Wv) and bad is None:
+                        bad = (Wv, s0, bool(v_))
+            if bad:
+                R.violated('S6', '%s::isAvailable' % short_fn(cq), 'isAvailable() is `%s`: with a window of %d holding %d sample(s) it answers %s; availability is reported exactly when W samples have arrived' % (
+                    sts[0].ret, bad[0], bad[1], bad[2]), fx.rel(f['loc']), 'E-STATE')
+            else:
+                R.holds('S6', '%s::isAvailable' % short_fn(cq), '`%s` agrees with (size == W) for W = 1, 2, 5 and every fill level' % sts[0].ret, fx.rel(f['loc']), 'E-STATE')
+        else:
+            R.undecided('S6', '%s::isAvailable' % short_fn(cq), 'isAvailable is not `data_.size() == windowSize_` nor a stored flag: %s' % [s.ret for s in sts])
         # who changes the window?
         rec = fx.records.get(cq)
         for mth in rec['methods']:
